@@ -81,6 +81,13 @@ func runC12(p *engine.Prog, r *engine.Report) {
 				nt := fi.T(n).S
 				for _, wcall := range writes {
 					sl, ok := wcall.Call.Args[0].(*ssa.Slice)
+					if ok {
+						// data := p[:n] taken once, then data[written:]: the same bytes as p[written:n]
+						if inner, isSl := sl.X.(*ssa.Slice); isSl && sl.High == nil && inner.X == ssa.Value(buf) && inner.High != nil &&
+							(inner.Low == nil || (fi.T(inner.Low).IsConst() && fi.T(inner.Low).K == 0)) {
+							sl = &ssa.Slice{X: inner.X, Low: sl.Low, High: inner.High}
+						}
+					}
 					if !ok || sl.X != ssa.Value(buf) || sl.High == nil || fi.T(sl.High).S != nt || sl.Low == nil {
 						probs = append(probs, "a writer is given "+fi.T(wcall.Call.Args[0]).S+", not p[written:n] of the read buffer")
 						continue
@@ -256,6 +263,9 @@ func runC12(p *engine.Prog, r *engine.Report) {
 				ct := fi.T(iff.Cond).S
 				if strings.Contains(ct, `"Content-Encoding")`) && strings.Contains(ct, `"gzip"`) && strings.Contains(ct, ".HTTPResponse") {
 					gz = fi.Cond(iff.Cond)
+					if gz.Op == '!' && len(gz.Sub) == 1 {
+						gz = gz.Sub[0] // the test is written "!= gzip": the condition meant is still "is gzip"
+					}
 				}
 			}
 			// where the bytes handed to the tee come from
